@@ -172,7 +172,7 @@ PROPS = {
         level="proof",
         level_text="(cfloat clauses) Lean model of == < (subtraction based with subnormals, field compare without) ++ -- (single- and "
                    "multi-block paths) maxpos/minpos/... and numeric_limits; judged against the order of exactly decoded values",
-        level_note="trusted: as C02; D3 (bitwise ==), D6 (bit above nbits), ++ on -0, ++ on maxpos without supernormals, zero aliases and the "
+        level_note="trusted: as C02; D3 (bitwise ==) was repaired by d3ba933 and == is now proved to be value equality (C06_cfloat_eq); D6 (bit above nbits), ++ on -0, ++ on maxpos without supernormals, zero aliases and the "
                    "5-block isminnegencoding are KNOWN-FINDING classes with counterexample theorems",
         explanation="cfloat comparisons (all six operators per pair), ++/-- on every encoding, extremes and numeric_limits members",
         assumptions=["the compiled code behaves like the model on inputs that were not explored"],
